@@ -328,8 +328,21 @@ func (in *instr) replaceSeams() {
 		if id, ok := c.Node().(*ast.Ident); ok {
 			if cn, ok := in.info.Uses[id].(*types.Const); ok && cn.Pkg() != nil && knobConsts[cn.Pkg().Path()+"."+cn.Name()] {
 				if _, isSel := c.Parent().(*ast.SelectorExpr); !isSel && !inConst[id.Pos()] {
+					// the constant keeps the type it has in this context (an untyped constant compared with an int64 is an int64)
+					knob := ast.Expr(call(sel("simrt", "KnobInt"), strLit(cn.Pkg().Path()+"."+cn.Name()), ast.NewIdent(id.Name)))
+					if bt, ok := in.info.TypeOf(id).(*types.Basic); ok {
+						switch {
+						case bt.Kind() == types.Int || bt.Info()&types.IsUntyped != 0:
+						case bt.Info()&(types.IsInteger|types.IsFloat) != 0:
+							knob = call(ast.NewIdent(bt.Name()), knob)
+						default:
+							return true // not a number here: leave the constant alone
+						}
+					} else {
+						return true // a named type: leave the constant alone
+					}
 					in.site(id.Pos(), "knob")
-					c.Replace(call(sel("simrt", "KnobInt"), strLit(cn.Pkg().Path()+"."+cn.Name()), ast.NewIdent(id.Name)))
+					c.Replace(knob)
 					return false
 				}
 			}
